@@ -13,7 +13,7 @@ import (
 )
 
 func init() {
-	register("C04", checkC04, "Every method of packet.Registers is abstractly interpreted under the struct invariant that its only constructor NewRegisters establishes (the constructor's success state and field values are the entry state and receiver of the method analysis; fields with other writers are taken as arbitrary; an unexported getter with extra plain-integer parameters is analysed once per distinct tuple of constants its call sites pass). R4.1: every index/slice of the payload reachable from an accessor is proven in bounds against len for all addresses, window positions and string lengths, with rule W on narrow-typed address arithmetic. R4.4: on every success return of a raw getter the facts entail start <= address and address+W <= start+count over the integers, and every error return is infeasible for an in-window access. R4.2: the bytes returned are payload[2*(address-start)+pi(j)] with pi the identity or the word reversal exactly on the LowWordFirst branch. R4.3: each typed accessor calls the getter of its width, decodes with the byte order its flag selects and WithByteOrder variants fall back to the default order iff the argument is 0. Numerical identity of decoded floats is not decided. R4.5 no access path, including Field.ExtractFrom, writes payload-derived memory or keeps decoder state (C13 effect analysis). R4.6 every AsRegisters hands (payload field, request start address) to NewRegisters unchanged. R4.5 is also rooted at the builder's extraction loop (the configuration setter must not be called on the shared Registers while fields are extracted).")
+	register("C04", checkC04, "Every method of packet.Registers is abstractly interpreted under the struct invariant that its only constructor NewRegisters establishes (the constructor's success state and field values are the entry state and receiver of the method analysis; fields with other writers are taken as arbitrary; an unexported getter with extra plain-integer parameters is analysed once per distinct tuple of constants its call sites pass). R4.1: every index/slice of the payload reachable from an accessor is proven in bounds against len for all addresses, window positions and string lengths, with rule W on narrow-typed address arithmetic. R4.4: on every success return of a raw getter the facts entail start <= address and address+W <= start+count over the integers, and every error return is infeasible for an in-window access. R4.2: the bytes returned are payload[2*(address-start)+pi(j)] with pi the identity or the word reversal exactly on the LowWordFirst branch. R4.3: each typed accessor calls the getter of its width, decodes with the byte order its flag selects and WithByteOrder variants fall back to the default order iff the argument is 0. Numerical identity of decoded floats is not decided. R4.5 no access path, including Field.ExtractFrom, writes payload-derived memory or keeps decoder state (C13 effect analysis). R4.6 every AsRegisters hands (payload field, request start address) to NewRegisters unchanged. R4.5 is also rooted at the builder's extraction loop (the configuration setter must not be called on the shared Registers while fields are extracted). R4.7 the sub-register accessors (bit/byte results, no order parameter) reach nothing that reads the ByteOrder field of Registers.")
 }
 
 // ctorInstance analyses constructor ctor with symbolic parameters and returns the value of
